@@ -39,6 +39,13 @@ OPS = {
 
 
 NEED_ROWS = ("rows_list", "ROWSET_ASCII", "ROWSET_SAME", "ROW_GET")
+CELL_OPS = ("CELLSET", "CELLSET_STR")          # a[row, 0] = one character (an encoded scalar / the Python string 'C')
+
+
+def _may_write_operand(prog):
+    """an in-place operation that is not preceded by a copy may write to the operand the program started from"""
+    writes = [i for i, op in enumerate(prog) if op in ("ASSIGN", "ROWSET_ASCII", "ROWSET_SAME") + CELL_OPS]
+    return bool(writes) and "copy" not in prog[:writes[0]]
 
 
 def op_rows_mask(a, c, bits):
@@ -64,7 +71,8 @@ class Ragged(Harness):
              ["ROWSET_ASCII"], ["ROWSET_SAME"], ["ROWSET_ASCII", "rows_rev"], ["rows_tail", "ROWSET_ASCII"], ["ROWSET_ASCII", "EQ"],
              ["rows_empty", "copy"], ["rows_empty", "cols_tail"], ["rows_tail", "rows_empty"],
              ["ROW_GET"], ["rows_tail", "ROW_GET"], ["rows_rev", "copy", "ROW_GET"], ["cols_tail", "ROW_GET"], ["rows_list", "ROW_GET"],
-             ["concat_self", "ROW_GET"]]
+             ["concat_self", "ROW_GET"],
+             ["CELLSET"], ["CELLSET_STR"], ["rows_rev", "copy", "CELLSET_STR"], ["CELLSET", "cols_rev"], ["CELLSET_STR", "EQ"]]
 
     def skeletons(self, tier, seed):
         out = []
@@ -140,6 +148,11 @@ class Ragged(Harness):
                 else:
                     value = EncodedArray(codes.astype("uint8"), enc if op == "ROWSET_SAME" else enc_of("ascii"))
                 a[0] = value
+            elif op in CELL_OPS:
+                r = next((i for i, L in enumerate(a.lengths) if int(L) > 0), None)      # the first row that has a first letter
+                if r is None:
+                    break
+                a[r, 0] = ch2 if op == "CELLSET" else "C"
             elif op == "COPY_ASSIGN":
                 cp = a.copy()
                 cp[cp == ch] = ch2
@@ -187,6 +200,12 @@ class Ragged(Harness):
                 rows = [rows[len(rows) - 1]]
             elif op in ("ROWSET_ASCII", "ROWSET_SAME"):
                 rows = [[g(f"a{j}") for j in range(len(rows[0]))]] + rows[1:]
+            elif op in CELL_OPS:
+                r = next((i for i, row in enumerate(rows) if len(row) > 0), None)
+                if r is None:
+                    break
+                letter = ch2 if op == "CELLSET" else (ord("C") if skel["kind"] == "ascii" else ALPH[skel["kind"]].upper().index("C"))
+                rows = [([letter] + list(row[1:])) if i == r else row for i, row in enumerate(rows)]
             elif op == "COPY_ASSIGN":
                 extra["copy"] = [[I(t, ch, ch2) for t in r] for r in rows]
                 log.pop(0)
@@ -230,7 +249,7 @@ class Ragged(Harness):
         for entry in out["log"]:
             if isinstance(entry, (list, tuple)) and len(entry) == 2 and entry[0] == "tolist" and list(entry[1]) != []:
                 return False
-        if not any(op in ("ASSIGN", "ROWSET_ASCII", "ROWSET_SAME") for op in skel["prog"]):
+        if not _may_write_operand(skel["prog"]):
             if [len(r) for r in out["src"]] != [len(r) for r in src]:
                 return False
             conj += [TI(a) == b for ra, rb in zip(out["src"], src) for a, b in zip(ra, rb)]
@@ -255,7 +274,7 @@ class Ragged(Harness):
         desc = f"rows {src} ({skel['kind']}), program {skel['prog']} (choices {cout['log']}), view {skel['view']}, ch={cx['ch']}, ch2={cx['ch2']}"
         if got != exp:
             return f"{desc}: result {got}, the same operations on the list of strings give {exp}"
-        if not any(op in ("ASSIGN", "ROWSET_ASCII", "ROWSET_SAME") for op in skel["prog"]) and cout["src"] != src:
+        if not _may_write_operand(skel["prog"]) and cout["src"] != src:
             return f"{desc}: the operand changed to {cout['src']}"
         for entry in cout["log"]:
             if isinstance(entry, (list, tuple)) and len(entry) == 2 and entry[0] == "tolist" and list(entry[1]) != []:
